@@ -132,6 +132,20 @@ func (p *parser) parseIPv4Number(u *Url, input string) (number int64, validation
 		validationError = true
 		return
 	}
+	// strconv reports an out-of-range number as soon as it overflows, before it has looked at the
+	// remaining characters, so a non-digit behind an overflow would be taken for a number
+	// ("9672950000000000000a"). Check the digits first.
+	for i := 0; i < len(input); i++ {
+		c := input[i]
+		switch {
+		case c >= '0' && c <= '7':
+		case (c == '8' || c == '9') && R >= 10:
+		case ((c >= 'a' && c <= 'f') || (c >= 'A' && c <= 'F')) && R == 16:
+		default:
+			err = &strconv.NumError{Func: "ParseUint", Num: input, Err: strconv.ErrSyntax}
+			return
+		}
+	}
 	// ParseUint, unlike ParseInt, does not accept a leading sign. 63 bits keep the result
 	// representable as a non-negative int64; larger numbers give strconv.ErrRange.
 	var n uint64
